@@ -6,20 +6,20 @@ From Coq Require Import ZArith.
 From TL Require Import Lib.Base Lib.GenTypes Model.PlacementTypes Gen.PlacementGen Model.Placement Model.PlacementRun
      Proofs.PlacementStrings Proofs.PlacementMain.
 
-(* 1. With the five quirks off, for every regex engine, every configuration with non-empty directory keys
+(* 1. With the two remaining quirks off (the prefix test, the handling of dict allow items and the resolution of
+      relative paths are the forms found in the source, for any value of their flags), for every regex engine, every configuration with non-empty directory keys
       and every file: the linter model yields exactly the specified outcome - the configuration is
       rejected iff it holds an invalid pattern, otherwise the reported list (file, line, column, message)
       is the one the allow/deny rules prescribe for the project-relative path. *)
 Theorem C18_outcome_exact : forall valid matches q c f,
-  q_global_on_covered q = false -> q_prefix_without_separator q = false ->
-  q_path_relative_to_cwd q = false -> q_allow_dict_unsupported q = false -> q_trailing_slash_depth q = false ->
+  q_global_on_covered q = false -> q_trailing_slash_depth q = false ->
   cfg_ok c = true ->
   forget (run valid matches q c f) = spec valid matches c f.
 Proof. exact run_exact. Qed.
 Print Assumptions C18_outcome_exact.
 
 Theorem C18_report_exact : forall matches q c p,
-  q_global_on_covered q = false -> q_prefix_without_separator q = false -> q_trailing_slash_depth q = false ->
+  q_global_on_covered q = false -> q_trailing_slash_depth q = false ->
   cfg_ok c = true ->
   check_all matches q p c = spec_report matches c p.
 Proof. exact report_exact. Qed.
@@ -63,7 +63,7 @@ Print Assumptions C18_verdict_iff.
 
 (* 4. Deny takes precedence over allow. *)
 Theorem C18_deny_precedence : forall matches q c p d r i,
-  q_global_on_covered q = false -> q_prefix_without_separator q = false -> q_trailing_slash_depth q = false ->
+  q_global_on_covered q = false -> q_trailing_slash_depth q = false ->
   cfg_ok c = true ->
   spec_rule p (dirs_of c) = Some (d, r) -> spec_denied matches p (r_deny r) = Some i ->
   check_all matches q p c = [(p, 1, 0, spec_dir_deny_msg p d (spec_reason i))].
@@ -73,7 +73,7 @@ Print Assumptions C18_deny_precedence.
 (* 5. Files satisfying all applicable rules are never reported; nothing is reported when no rules are
       configured (the latter for every quirk vector, i.e. also for the current tree). *)
 Theorem C18_satisfying_not_reported : forall matches q c p,
-  q_global_on_covered q = false -> q_prefix_without_separator q = false -> q_trailing_slash_depth q = false ->
+  q_global_on_covered q = false -> q_trailing_slash_depth q = false ->
   cfg_ok c = true ->
   match spec_rule p (dirs_of c) with
   | Some (_, r) => violates matches p r
@@ -91,8 +91,7 @@ Print Assumptions C18_no_rules_no_report.
 
 (* 6. The verdict depends only on the path relative to the project root. *)
 Theorem C18_verdict_depends_on_relpath_only : forall valid matches q c f1 f2,
-  q_global_on_covered q = false -> q_prefix_without_separator q = false ->
-  q_path_relative_to_cwd q = false -> q_allow_dict_unsupported q = false -> q_trailing_slash_depth q = false ->
+  q_global_on_covered q = false -> q_trailing_slash_depth q = false ->
   cfg_ok c = true ->
   relpath f1 = relpath f2 ->
   forget (run valid matches q c f1) = forget (run valid matches q c f2).
@@ -102,26 +101,36 @@ Print Assumptions C18_verdict_depends_on_relpath_only.
 (* 7. A syntactically invalid pattern anywhere in the configuration is rejected as a configuration error
       naming an invalid pattern; a configuration of valid patterns is accepted. *)
 Theorem C18_invalid_pattern_rejected : forall valid matches q c f,
-  q_allow_dict_unsupported q = false ->
   (forallb valid (all_patterns c) = true -> exists l, run valid matches q c f = Reports l) /\
   (forallb valid (all_patterns c) = false ->
    exists p, run valid matches q c f = Rejected p /\ In p (all_patterns c) /\ valid p = false).
 Proof. exact invalid_pattern_rejected. Qed.
 Print Assumptions C18_invalid_pattern_rejected.
 
-(* 8. Confinement (partial; the full statement is 1): the faithful model, with any of the quirks on, is exact
-      on every input outside the five defect classes - no allow item written as a dict, path handed over
-      absolute or relative to the root itself, no directory key that is a bare string prefix of the path,
-      no directory key written with a trailing slash,
-      and the file uncovered or no global lists configured. *)
+(* 8. Confinement (partial; the full statement is 1): the faithful model, with both remaining quirks on, is exact
+      on every input outside their two defect classes - no directory key written with a trailing slash, and
+      the file uncovered or no global lists configured. *)
 Theorem C18_actual_exact_outside_defects_partial : forall valid matches q c f,
   cfg_ok c = true ->
-  no_adict c = true -> presented_from_root f = true -> no_bare_prefix c (relpath f) = true ->
   no_trailing_slash c = true ->
   (spec_rule (relpath f) (dirs_of c) = None \/ (c_gdeny c = None /\ c_gpat c = None)) ->
   forget (run valid matches q c f) = spec valid matches c f.
 Proof. exact run_exact_outside_defects. Qed.
 Print Assumptions C18_actual_exact_outside_defects_partial.
+
+(* 9. The forms found in the source after the fix: commits are the property's forms, whatever the flags say. *)
+Theorem C18_source_prefix_test_is_containment : forall q d p,
+  prefix_test q d p = starts_with (rstrip_slash d ++ "/") p.
+Proof. exact prefix_test_ideal. Qed.
+Print Assumptions C18_source_prefix_test_is_containment.
+
+Theorem C18_source_path_is_root_relative : forall q f, eff_path q f = relpath f.
+Proof. exact eff_path_relpath. Qed.
+Print Assumptions C18_source_path_is_root_relative.
+
+Theorem C18_source_dict_allow_items_are_patterns : forall valid q a, v_aitem valid q a = vpat valid (aitem_pattern a).
+Proof. exact v_aitem_pattern. Qed.
+Print Assumptions C18_source_dict_allow_items_are_patterns.
 
 (* non-vacuity: nested directory rules, deny over allow, an uncovered file judged by the global lists,
    a satisfied rule; the tables are re.search(.., IGNORECASE) on these strings *)
